@@ -821,7 +821,30 @@ func (repo *Repository) MarkHeaderInvalid(ctx context.Context, hash bitcoin.Hash
 	// Check if hash was previously accepted
 	branch, height := repo.branches.Find(hash)
 	if branch == nil {
-		return nil // not found
+		// Check the part of the main branch that was pruned from memory.
+		main := repo.branches[0]
+		prunedHeight, exists := repo.heights[hash]
+		if !exists || prunedHeight >= main.PrunedLowestHeight() {
+			return nil // not found
+		}
+
+		if err := repo.restorePruned(ctx, main,
+			main.PrunedLowestHeight()-prunedHeight+pruneDepth); err != nil {
+			return errors.Wrap(err, "restore pruned")
+		}
+
+		branch, height = repo.branches.Find(hash)
+		if branch == nil {
+			return nil // not found
+		}
+	}
+
+	if height > branch.parentHeight+1 && height <= branch.PrunedLowestHeight() {
+		// Everything this branch still holds in memory is being removed, so bring the headers below
+		// that back from storage.
+		if err := repo.restorePruned(ctx, branch, pruneDepth); err != nil {
+			return errors.Wrap(err, "restore pruned")
+		}
 	}
 
 	if err := repo.branches.Trim(branch, height); err != nil {
@@ -838,6 +861,40 @@ func (repo *Repository) MarkHeaderInvalid(ctx context.Context, hash bitcoin.Hash
 	}
 	repo.longest = longest
 
+	return nil
+}
+
+// restorePruned reads up to count headers below the lowest header the branch holds in memory from
+// the saved header files and puts them back in the branch.
+func (repo *Repository) restorePruned(ctx context.Context, branch *Branch, count int) error {
+	lowest := branch.PrunedLowestHeight()
+	height := lowest - count
+	if height <= branch.parentHeight {
+		height = branch.parentHeight + 1
+	}
+
+	var restored []*HeaderData
+	for height < lowest {
+		file := height / headersPerFile
+		headersData, err := repo.getData(ctx, file)
+		if err != nil {
+			return errors.Wrap(err, "get data")
+		}
+
+		offset := height - (file * headersPerFile)
+		if offset >= len(headersData) {
+			return errors.New("File missing data")
+		}
+
+		end := offset + (lowest - height)
+		if end > len(headersData) {
+			end = len(headersData)
+		}
+		restored = append(restored, headersData[offset:end]...)
+		height += end - offset
+	}
+
+	branch.Restore(restored)
 	return nil
 }
 
